@@ -30,6 +30,9 @@ func failf(sig, format string, a ...any) *fail { return &fail{sig, fmt.Sprintf(f
 
 var ctx = context.Background()
 
+// lastOutcome is the library's answer in the most recent case (samples only).
+var lastOutcome string
+
 // errClass is used for outcome statistics only (never by the oracle).
 func errClass(err error) string {
 	switch {
@@ -99,7 +102,8 @@ func seqJobs(sp space) []driver.Job {
 					if !k.trivial() {
 						c.Nontriv(driver.Hash(t.name, k.key()))
 					}
-					if f := t.run(c, k); f != nil {
+					f := t.run(c, k)
+					if f != nil {
 						c.AddViolation(driver.Violation{Tier: c.Tier, Job: c.Job, Scenario: t.name, Sig: f.sig,
 							Detail: "case: " + k.String() + "\n" + f.detail})
 					}
@@ -124,16 +128,56 @@ func seqJobs(sp space) []driver.Job {
 						}
 					}
 				}
-				if sh == 0 && t.name == "content.ReadAll" {
-					c.Sample(`content.ReadAll: content="a\x00" digest=right-for-prefix size=short-by-1(1) stream=complete("a\x00", then EOF) chunks=[1 1] zero-read@1: the first Size bytes match but a byte follows -> oracle demands an error`)
-				}
-				if sh == 0 && t.name == "oci.Storage" {
-					c.Sample(`oci.Storage.Push: content="aa" digest=right size=right(2) stream=early-EOF@1("a", then EOF) chunks=[1]: oracle demands error, Exists=false, Fetch error, no new regular file under blobs/`)
-				}
 			}})
 		}
 	}
 	return out
+}
+
+// sampleJob writes out two cases with the library's answer and the oracle's demand.
+func sampleJob(sp space) driver.Job {
+	return driver.Job{Name: "samples", Run: func(c *driver.Ctx) {
+		ts := seqTargets(sp)
+		pick := func(name string, pred func(k *kase) bool) {
+			for _, t := range ts {
+				if t.name != name {
+					continue
+				}
+				done := false
+				sp.each(true, func(_ int, k *kase) {
+					if done || !pred(k) {
+						return
+					}
+					done = true
+					c.Evals++
+					f := t.run(c, k)
+					verdict := "holds"
+					if f != nil {
+						verdict = "VIOLATED: " + f.sig
+					}
+					c.Sample(fmt.Sprintf("%s | %s | library: %s | oracle: %s | %s", t.name, k, lastOutcome, expectation(k), verdict))
+				})
+			}
+		}
+		rich := func(k *kase) bool { return len(k.st.data) >= 2 && len(k.ck.chunks) >= 2 && k.ck.zero >= 1 }
+		pick("content.ReadAll", func(k *kase) bool { return rich(k) && k.full() && k.beyond() && k.d.size > 0 })
+		pick("oci.Storage", func(k *kase) bool {
+			return rich(k) && !k.full() && k.d.dname == "right" && k.d.sname == "right" && !k.st.fail
+		})
+	}}
+}
+
+// expectation spells out what the oracle demands for k (samples only).
+func expectation(k *kase) string {
+	switch {
+	case !k.full():
+		return "must be refused (" + k.class() + "); after a refused Push: Exists false, Fetch fails, no new file under blobs/"
+	case k.beyond():
+		return "first Size bytes are the named content but bytes follow: ReadAll/FetchAll/VerifyReader/CopyBuffer must report an error; a Push may go either way but only the named bytes may become visible"
+	case k.st.fail:
+		return "named content delivered, then the reader fails: not judged, only the named bytes may become visible"
+	}
+	return "exact content: if accepted, the bytes handed back / visible must equal the named content"
 }
 
 // ---- ReadAll / FetchAll
@@ -143,6 +187,7 @@ func seqJobs(sp space) []driver.Job {
 // not hold bytes beyond Size.
 func judgeData(c *driver.Ctx, t string, k *kase, rd *sreader, out []byte, err error) *fail {
 	c.Outcome(driver.Hash(t, errClass(err)))
+	lastOutcome = fmt.Sprintf("data=%q err=%v", clip(out), err)
 	if rd.runaway {
 		return failf(t+": keeps polling a reader that makes no progress", "more than 4096 Read calls")
 	}
@@ -452,6 +497,7 @@ func runPush(c *driver.Ctx, p ptarget, k *kase) *fail {
 		return failf(t+".Push: keeps polling a reader that makes no progress", "more than 4096 Read calls")
 	}
 	v := probe(ps.st, ps.desc)
+	lastOutcome = fmt.Sprintf("Push err=%v; %s", err, v)
 	added := map[string][]byte{}
 	if ps.root != "" {
 		for n, b := range regularFiles(filepath.Join(ps.root, "blobs")) {
